@@ -26,6 +26,15 @@ theorem ginv_init (d : Defects) (n : Nat) : GInv (init d n) := by
   · intro s1 h1 s2 _ a ha; rw [hs s1 h1] at ha; cases ha
   · intro s h r hr; rw [hs s h] at hr; cases hr
 
+theorem prevOf_ok (r : Row) : prevOf r = some r.text ∨ (prevOf r = none ∧ r.text = []) := by
+  unfold prevOf
+  by_cases h : (r.str || !r.text.isEmpty) = true
+  · left; simp only [h, ↓reduceIte]
+  · right
+    simp only [h, Bool.false_eq_true, ↓reduceIte, true_and]
+    simp only [Bool.or_eq_true, Bool.not_eq_true', not_or, Bool.not_eq_true] at h
+    exact List.isEmpty_iff.mp (by simpa using h.2)
+
 /-- operations of the guard of `C17_partial`: local creations and updates, model versions, searches -/
 def Op.localOnly : Op → Bool
   | .del _ _ | .pull _ _ => false
@@ -101,6 +110,56 @@ theorem ginv_new {st : State} (h : GInv st) (i : Nat) (s s1 : Site) (hs : st.sit
     · exact List.mem_append.mpr (Or.inl (g3 x' hx' r hr'))
     · exact List.mem_append.mpr (Or.inr (by simp [h1]))
 
+/-- what a creation leaves alone -/
+theorem newOp_fields {tick : Nat} {used : List Nat} {s s1 : Site} {n : Nat} {e : Ent} {text : List Word} {str : Bool}
+    (hl : newOp tick used s n e text str = some s1) :
+    s1.tombs = s.tombs ∧ s1.indexOn = s.indexOn ∧ s1.declared = s.declared := by
+  unfold newOp at hl
+  split at hl
+  · cases hl
+  · simp only [Option.some.injEq] at hl
+    subst hl
+    exact ⟨rfl, rfl, rfl⟩
+
+theorem newOp_ginv (st : State) (h : GInv st) (si : Nat) (s : Site) (hs : st.sites[si]? = some s)
+    (n : Nat) (e : Ent) (text : List Word) (str : Bool) (s1 : Site)
+    (hl : newOp st.tick st.usedRows s n e text str = some s1) (tick : Nat) (words : List Word) :
+    GInv { st with sites := st.sites.set si s1, tick := tick, usedRows := st.usedRows ++ [n], words := words } := by
+  have g1 := h.1
+  have hsm : s ∈ st.sites := List.mem_of_getElem? hs
+  unfold newOp at hl
+  split at hl
+  · cases hl
+  · rename_i hc
+    simp only [Option.some.injEq] at hl
+    subst hl
+    simp only [Bool.or_eq_true, List.contains_iff_mem, decide_eq_true_eq, Option.isSome_iff_ne_none, ne_eq,
+      not_or, Decidable.not_not] at hc
+    obtain ⟨⟨hu, _⟩, hf⟩ := hc
+    have hinv := writeInsert_inv (g1 s hsm)
+      ({ n := n, ent := e, text := text, str := str, ver := st.tick, ctick := st.tick, slot := 0 } : Row) (findRow_none hf)
+    apply ginv_new h si s _ hs ?_ n hu ?_ ?_
+    · exact hinv
+    · intro x hx
+      dsimp only at hx
+      unfold writeInsert at hx
+      rcases List.mem_append.mp hx with h' | h'
+      · exact Or.inl h'
+      · rcases List.mem_singleton.mp h' with rfl
+        exact Or.inr rfl
+    · intro x hx y hy hxn hyn
+      dsimp only at hx hy
+      unfold writeInsert at hx hy
+      have hx' : x = { n := n, ent := e, text := text, str := str, ver := st.tick, ctick := st.tick, slot := nextSlot s.rows } := by
+        rcases List.mem_append.mp hx with h' | h'
+        · exact absurd hxn (findRow_none hf x h')
+        · exact List.mem_singleton.mp h'
+      have hy' : y = { n := n, ent := e, text := text, str := str, ver := st.tick, ctick := st.tick, slot := nextSlot s.rows } := by
+        rcases List.mem_append.mp hy with h' | h'
+        · exact absurd hyn (findRow_none hf y h')
+        · exact List.mem_singleton.mp h'
+      rw [hx', hy']
+
 theorem stepNested_d (st : State) (op : Op) : (stepNested st op).1.d = st.d := by
   unfold stepNested
   split
@@ -142,10 +201,7 @@ theorem stepNested_ginv (st : State) (h : GInv st) (op : Op) : GInv (stepNested 
                 subst hl
                 obtain ⟨ho, _⟩ := findRow_some hf
                 have hinv := writeUpdate_inv (g1 s hsm) st.d.deleteUnguarded old { old with ver := st.tick } ho rfl rfl
-                  (if old.text.isEmpty then none else some old.text) (by
-                    by_cases hem : old.text.isEmpty = true
-                    · right; simp only [hem, ↓reduceIte, true_and]; exact List.isEmpty_iff.mp hem
-                    · left; simp [hem])
+                  (prevOf old) (prevOf_ok old)
                 dsimp only
                 apply ginv_set h si
                 · exact hinv
@@ -162,6 +218,7 @@ theorem stepNested_ginv (st : State) (h : GInv st) (op : Op) : GInv (stepNested 
     | qnall si => simp only; split <;> exact h
     | model _ _ => exact h
     | new _ _ _ _ => exact h
+    | newx _ _ _ => exact h
     | upd _ _ _ => exact h
     | clr _ _ => exact h
     | del _ _ => exact h
@@ -185,7 +242,9 @@ theorem step_ginv (st : State) (h : GInv st) (hn : st.d.deleteLeavesIndex = true
     simp only
     split
     · exact h
-    · split <;> exact h
+    · split
+      · exact h
+      · split <;> exact h
   | qall si =>
     unfold step
     simp only
@@ -265,43 +324,22 @@ theorem step_ginv (st : State) (h : GInv st) (hn : st.d.deleteLeavesIndex = true
     split
     · exact h
     · rename_i s hs
-      have hsm : s ∈ st.sites := List.mem_of_getElem? hs
       split
       · exact h
       · rename_i s1 hl
         simp only [localOp] at hl
-        split at hl
-        · cases hl
-        · rename_i hc
-          simp only [Option.some.injEq] at hl
-          subst hl
-          simp only [Bool.or_eq_true, List.contains_iff_mem, decide_eq_true_eq, Option.isSome_iff_ne_none, ne_eq,
-            not_or, Decidable.not_not] at hc
-          obtain ⟨⟨hu, _⟩, hf⟩ := hc
-          have hinv := writeInsert_inv (g1 s hsm)
-            ({ n := n, ent := e, text := text, ver := st.tick, ctick := st.tick, slot := 0 } : Row) (findRow_none hf)
-          dsimp only
-          apply ginv_new h si s _ hs ?_ n hu ?_ ?_
-          · exact hinv
-          · intro x hx
-            dsimp only at hx
-            unfold writeInsert at hx
-            rcases List.mem_append.mp hx with h' | h'
-            · exact Or.inl h'
-            · rcases List.mem_singleton.mp h' with rfl
-              exact Or.inr rfl
-          · intro x hx y hy hxn hyn
-            dsimp only at hx hy
-            unfold writeInsert at hx hy
-            have hx' : x = { n := n, ent := e, text := text, ver := st.tick, ctick := st.tick, slot := nextSlot s.rows } := by
-              rcases List.mem_append.mp hx with h' | h'
-              · exact absurd hxn (findRow_none hf x h')
-              · exact List.mem_singleton.mp h'
-            have hy' : y = { n := n, ent := e, text := text, ver := st.tick, ctick := st.tick, slot := nextSlot s.rows } := by
-              rcases List.mem_append.mp hy with h' | h'
-              · exact absurd hyn (findRow_none hf y h')
-              · exact List.mem_singleton.mp h'
-            rw [hx', hy']
+        exact newOp_ginv st h si s hs n e text true s1 hl _ _
+  | newx si n e =>
+    unfold step
+    simp only
+    split
+    · exact h
+    · rename_i s hs
+      split
+      · exact h
+      · rename_i s1 hl
+        simp only [localOp] at hl
+        exact newOp_ginv st h si s hs n e [] _ s1 hl _ _
   | upd si n text =>
     unfold step
     simp only
@@ -319,11 +357,8 @@ theorem step_ginv (st : State) (h : GInv st) (hn : st.d.deleteLeavesIndex = true
           simp only [Option.some.injEq] at hl
           subst hl
           obtain ⟨ho, _⟩ := findRow_some hf
-          have hinv := writeUpdate_inv (g1 s hsm) st.d.deleteUnguarded old { old with text := text, ver := st.tick } ho rfl rfl
-            (if old.text.isEmpty then none else some old.text) (by
-              by_cases hem : old.text.isEmpty = true
-              · right; simp only [hem, ↓reduceIte, true_and]; exact List.isEmpty_iff.mp hem
-              · left; simp [hem])
+          have hinv := writeUpdate_inv (g1 s hsm) st.d.deleteUnguarded old
+            { old with text := text, str := true, ver := st.tick } ho rfl rfl (prevOf old) (prevOf_ok old)
           dsimp only
           apply ginv_set h si
           · exact hinv
@@ -352,11 +387,8 @@ theorem step_ginv (st : State) (h : GInv st) (hn : st.d.deleteLeavesIndex = true
           simp only [Option.some.injEq] at hl
           subst hl
           obtain ⟨ho, _⟩ := findRow_some hf
-          have hinv := writeUpdate_inv (g1 s hsm) st.d.deleteUnguarded old { old with text := [], ver := st.tick } ho rfl rfl
-            (if old.text.isEmpty then none else some old.text) (by
-              by_cases hem : old.text.isEmpty = true
-              · right; simp only [hem, ↓reduceIte, true_and]; exact List.isEmpty_iff.mp hem
-              · left; simp [hem])
+          have hinv := writeUpdate_inv (g1 s hsm) st.d.deleteUnguarded old
+            { old with text := [], str := (st.sites.length != 1), ver := st.tick } ho rfl rfl (prevOf old) (prevOf_ok old)
           dsimp only
           apply ginv_set h si
           · exact hinv
@@ -470,6 +502,7 @@ theorem stepNested_noTombs (st : State) (h : NoTombs st) (op : Op) : NoTombs (st
     | qnall si => simp only; split <;> exact h
     | model _ _ => exact h
     | new _ _ _ _ => exact h
+    | newx _ _ _ => exact h
     | upd _ _ _ => exact h
     | clr _ _ => exact h
     | del _ _ => exact h
@@ -485,7 +518,7 @@ theorem step_noTombs (st : State) (hd : st.d.deleteLeavesIndex = true) (h : NoTo
     · exact h s h'
     · subst h'; exact h1
   cases op with
-  | q si e t => unfold step; simp only; split; exact h; split <;> exact h
+  | q si e t => unfold step; simp only; split; exact h; split; exact h; split <;> exact h
   | qall si => unfold step; simp only; split <;> exact h
   | qn si t => exact stepNested_noTombs st h _
   | qnall si => exact stepNested_noTombs st h _
@@ -535,11 +568,17 @@ theorem step_noTombs (st : State) (hd : st.d.deleteLeavesIndex = true) (h : NoTo
       · exact h
       · rename_i s1 hl
         simp only [localOp] at hl
-        split at hl
-        · cases hl
-        · simp only [Option.some.injEq] at hl
-          subst hl
-          exact hset _ _ (h s (List.mem_of_getElem? hs))
+        exact hset _ _ ((newOp_fields hl).1.trans (h s (List.mem_of_getElem? hs)))
+  | newx si n e =>
+    unfold step; simp only
+    split
+    · exact h
+    · rename_i s hs
+      split
+      · exact h
+      · rename_i s1 hl
+        simp only [localOp] at hl
+        exact hset _ _ ((newOp_fields hl).1.trans (h s (List.mem_of_getElem? hs)))
   | upd si n text =>
     unfold step; simp only
     split
@@ -669,7 +708,7 @@ theorem step_flag (st : State) (h : ∀ s, s ∈ st.sites → FlagOK s) (op : Op
     · exact h s h'
     · subst h'; exact h1
   cases op with
-  | q si e t => unfold step; simp only; split; exact h; split <;> exact h
+  | q si e t => unfold step; simp only; split; exact h; split; exact h; split <;> exact h
   | qall si => unfold step; simp only; split <;> exact h
   | qn si t => unfold step stepNested; simp only; split; exact h; split <;> exact h
   | qnall si => unfold step stepNested; simp only; split; exact h; split <;> exact h
@@ -745,11 +784,25 @@ theorem step_flag (st : State) (h : ∀ s, s ∈ st.sites → FlagOK s) (op : Op
       · exact h
       · rename_i s1 hl
         simp only [localOp] at hl
-        split at hl
-        · cases hl
-        · simp only [Option.some.injEq] at hl
-          subst hl
-          exact hset _ _ (h s (List.mem_of_getElem? hs))
+        apply hset
+        have := h s (List.mem_of_getElem? hs)
+        unfold FlagOK at this ⊢
+        rw [(newOp_fields hl).2.1, (newOp_fields hl).2.2]
+        exact this
+  | newx si n e =>
+    unfold step; simp only
+    split
+    · exact h
+    · rename_i s hs
+      split
+      · exact h
+      · rename_i s1 hl
+        simp only [localOp] at hl
+        apply hset
+        have := h s (List.mem_of_getElem? hs)
+        unfold FlagOK at this ⊢
+        rw [(newOp_fields hl).2.1, (newOp_fields hl).2.2]
+        exact this
   | upd si n text =>
     unfold step; simp only
     split
